@@ -176,10 +176,10 @@ func ruleCacheRecursion(c *Ctx) {
 		}
 		nrec++
 		key := "PubkeyCache.AddValidator.recurse"
-		id, ok := ast.Unparen(sel.X).(*ast.Ident)
-		if !ok {
-			c.bad(key, call.Pos(), "recursion on %s, not on a freshly built child", types.ExprString(sel.X))
-			return true
+		// the target: a local, or directly a literal / a call of a helper that builds the child
+		id, _ := ast.Unparen(sel.X).(*ast.Ident)
+		if id == nil {
+			id = &ast.Ident{Name: types.ExprString(sel.X)}
 		}
 		if info.Uses[id] == recv {
 			// a retry on the same receiver makes progress only when it is taken because the cache GREW since the
@@ -217,20 +217,67 @@ func ruleCacheRecursion(c *Ctx) {
 		}
 		// find the definition in the same block
 		var lit *ast.CompositeLit
-		if blk, ok := parents[parents[call]].(*ast.BlockStmt); ok {
+		var built ast.Expr
+		if _, isId := ast.Unparen(sel.X).(*ast.Ident); !isId {
+			built = sel.X
+		} else if blk, ok := parents[parents[call]].(*ast.BlockStmt); ok {
 			for _, st := range blk.List {
 				as, ok := st.(*ast.AssignStmt)
 				if !ok || len(as.Lhs) != 1 || len(as.Rhs) != 1 {
 					continue
 				}
 				if lid, ok := as.Lhs[0].(*ast.Ident); ok && info.Defs[lid] == info.Uses[id] {
-					r := ast.Unparen(as.Rhs[0])
-					if ue, ok := r.(*ast.UnaryExpr); ok {
-						r = ast.Unparen(ue.X)
-					}
-					lit, _ = r.(*ast.CompositeLit)
+					built = as.Rhs[0]
 				}
 			}
+		}
+		// through a helper that does nothing but return the literal: its parameters and receiver stand for the arguments
+		subst := map[types.Object]ast.Expr{}
+		if built != nil {
+			r := ast.Unparen(built)
+			if hc, ok := r.(*ast.CallExpr); ok {
+				if hf := calleeFunc(info, hc); hf != nil && hf.Pkg() == pk.Types {
+					c.P.funcDecls(func(p2 *packages.Package, f2 *ast.FuncDecl) {
+						if p2 != pk || p2.TypesInfo.Defs[f2.Name] != hf || f2.Body == nil || len(f2.Body.List) != 1 {
+							return
+						}
+						ret, ok := f2.Body.List[0].(*ast.ReturnStmt)
+						if !ok || len(ret.Results) != 1 {
+							return
+						}
+						r = ast.Unparen(ret.Results[0])
+						i := 0
+						for _, f := range f2.Type.Params.List {
+							for _, nm := range f.Names {
+								if i < len(hc.Args) {
+									subst[info.Defs[nm]] = hc.Args[i]
+								}
+								i++
+							}
+						}
+						if f2.Recv != nil && len(f2.Recv.List) == 1 && len(f2.Recv.List[0].Names) == 1 {
+							if hs, ok := hc.Fun.(*ast.SelectorExpr); ok {
+								subst[info.Defs[f2.Recv.List[0].Names[0]]] = hs.X
+							}
+						}
+					})
+				}
+			}
+			if ue, ok := r.(*ast.UnaryExpr); ok {
+				r = ast.Unparen(ue.X)
+			}
+			lit, _ = r.(*ast.CompositeLit)
+		}
+		through := func(e ast.Expr) ast.Expr {
+			if e == nil {
+				return nil
+			}
+			if x, ok := ast.Unparen(e).(*ast.Ident); ok {
+				if a, ok := subst[info.Uses[x]]; ok {
+					return a
+				}
+			}
+			return e
 		}
 		if lit == nil {
 			c.bad(key, call.Pos(), "recursion target %s is not a PubkeyCache literal built in the same branch", id.Name)
@@ -241,9 +288,9 @@ func ruleCacheRecursion(c *Ctx) {
 			if kv, ok := el.(*ast.KeyValueExpr); ok {
 				switch kv.Key.(*ast.Ident).Name {
 				case "parent":
-					parentV = kv.Value
+					parentV = through(kv.Value)
 				case "trustedParentCount":
-					trustedV = kv.Value
+					trustedV = through(kv.Value)
 				}
 			}
 		}
@@ -263,8 +310,8 @@ func ruleCacheRecursion(c *Ctx) {
 				//   existing != index            -> the key is already recorded at `existing`: cut there
 				//   existingPubkey.Compressed != pub -> another key sits at `index`: cut at index
 				var gov *ast.IfStmt
-				for cur := ast.Node(lit); cur != nil; cur = parents[cur] {
-					if is, ok := cur.(*ast.IfStmt); ok && gov == nil && is.Body.Pos() <= lit.Pos() && lit.End() <= is.Body.End() {
+				for cur := ast.Node(call); cur != nil; cur = parents[cur] {
+					if is, ok := cur.(*ast.IfStmt); ok && gov == nil && is.Body.Pos() <= call.Pos() && call.End() <= is.Body.End() {
 						gov = is
 					}
 				}
